@@ -23,6 +23,8 @@ def write(prop, tier, seed, coverage, assumptions, wall_s, violations, level='ex
             'coverage': _clean(coverage), 'assumptions': list(assumptions), 'wall_s': round(float(wall_s), 2),
             'violations': int(violations)}
     d = os.path.join(HERE, 'evidence')
+    if os.environ.get('TORCHTT_REPO', '/repo') != '/repo':
+        d = os.path.join(HERE, '.work', 'evidence-of-scratch-trees')      # runs against a scratch tree (seeded changes, own mutants) never touch the committed evidence
     os.makedirs(d, exist_ok=True)
     path = os.path.join(d, prop + '.json')
     with open(path, 'w') as f:
